@@ -1,6 +1,9 @@
 (* C16 — fixed-width payload decoders are total and invert the writer's encodings.
-   Statements only; every proof is [exact <lemma of Proofs/DecodersProofs>]. *)
-From Ebml Require Import Base Tools Spec Writer Proofs.Tactics Proofs.BytesProofs Proofs.DecodersProofs.
+   Statements only; every proof is [exact <lemma of Proofs/DecodersProofs, Proofs/AuditCodec>].
+   Floats are bit patterns throughout: a float value is the 64-bit pattern of the f64 (N below 2^64); "the identical value" for floats
+   means the identical bit pattern.  [widen32] (f32 pattern -> f64 pattern, Model/Tools.v) has no IEEE specification in Coq: that it is
+   Rust's `f32 as f64` is checked only by the correspondence run. *)
+From Ebml Require Import Base Tools Spec Writer Proofs.Tactics Proofs.BytesProofs Proofs.DecodersProofs Proofs.AuditCodec.
 
 (* unsigned: big-endian value for lengths 0-8 (the empty slice is 0), an error beyond *)
 Theorem C16_u64_value : forall a, (length a <= 8)%nat -> arr_to_u64 a = Ok (from_be a).
@@ -22,7 +25,9 @@ Proof. exact arr_to_f64_4. Qed.
 Theorem C16_f64_error : forall a, length a <> 4%nat -> length a <> 8%nat -> arr_to_f64 a = Err (ReadF64Mismatch a).
 Proof. exact arr_to_f64_err. Qed.
 
-(* none of them panics, on any slice *)
+(* none of them panics, on any slice.  This holds by the shape of the model: the three model decoders have no Panic branch at all (slice
+   indexing and shifts are totalised there), so the theorem records a modelling decision; that the Rust functions do not panic is
+   checked by the correspondence run on every slice length 0-9 and beyond *)
 Theorem C16_total : forall a, arr_to_u64 a <> Panic /\ arr_to_i64 a <> Panic /\ arr_to_f64 a <> Panic.
 Proof. exact decoders_total. Qed.
 
@@ -36,6 +41,18 @@ Proof. exact uint_width_minimal. Qed.
 Theorem C16_writer_sint : forall z, (- 2 ^ 63 <= z < 2 ^ 63)%Z ->
   arr_to_i64 (be_bytes (sint_width z) (to_u64 z)) = Ok z /\ length (be_bytes (sint_width z) (to_u64 z)) = sint_width z.
 Proof. exact writer_sint_inverted. Qed.
+(* the signed width is minimal as well: whenever the value fits the two's-complement range of a width w of 1, 2, 4 or 8 bytes, the
+   writer's width is at most w ... *)
+Theorem C16_writer_sint_minimal : forall z w, (w = 1 \/ w = 2 \/ w = 4 \/ w = 8)%nat ->
+  (- 2 ^ (8 * Z.of_nat w - 1) <= z < 2 ^ (8 * Z.of_nat w - 1))%Z -> (sint_width z <= w)%nat.
+Proof. exact sint_width_minimal. Qed.
+(* ... and the writer's width is itself one of 1, 2, 4, 8 and the value fits it (every i64; likewise every u64) *)
+Theorem C16_writer_sint_fits : forall z, (- 2 ^ 63 <= z < 2 ^ 63)%Z ->
+  let w := sint_width z in (w = 1 \/ w = 2 \/ w = 4 \/ w = 8)%nat /\ (- 2 ^ (8 * Z.of_nat w - 1) <= z < 2 ^ (8 * Z.of_nat w - 1))%Z.
+Proof. exact sint_width_fits. Qed.
+Theorem C16_writer_uint_fits : forall v, v < 2 ^ 64 ->
+  let w := uint_width v in (w = 1 \/ w = 2 \/ w = 4 \/ w = 8)%nat /\ v < 256 ^ N.of_nat w.
+Proof. exact uint_width_fits. Qed.
 Theorem C16_writer_float : forall bits, bits < 2 ^ 64 -> arr_to_f64 (be_bytes 8 bits) = Ok bits.
 Proof. exact writer_float_inverted. Qed.
 
@@ -45,3 +62,9 @@ Example C16_ex : arr_to_u64 [] = Ok 0 /\ arr_to_i64 [] = Ok 0%Z /\ arr_to_i64 [2
   /\ write_element (w_init []) 130 (Some DSInt) (VI (-200)) 0 =
        ({| w_open := []; w_buf := [130; 130; 255; 56]; w_dest := []; w_script := [] |}, WOk).
 Proof. vm_compute. repeat split; reflexivity. Qed.
+
+(* the widths at the boundaries of the signed ranges *)
+Example C16_ex_sint_widths :
+  map sint_width [-128; -129; 127; 128; -32768; -32769; 32767; 32768; -2147483648; -2147483649; 2147483647; 2147483648]%Z =
+    [1; 2; 1; 2; 2; 4; 2; 4; 4; 8; 4; 8]%nat.
+Proof. vm_compute. reflexivity. Qed.
